@@ -92,7 +92,11 @@ InstantOf(y, m, d, h, mi, s) == Inst(DaysFromCivil(y, m, d), SecOfDay(h, mi, s),
 Dg(n) == 48 + n
 Pad2(n) == <<Dg(n \div 10), Dg(n % 10)>>
 Pad3(n) == <<Dg(n \div 100), Dg((n \div 10) % 10), Dg(n % 10)>>
-Pad4(n) == <<Dg(n \div 1000), Dg((n \div 100) % 10), Dg((n \div 10) % 10), Dg(n % 10)>>
+\* decimal digits of n >= 0 without padding
+RECURSIVE Unpadded(_)
+Unpadded(n) == IF n < 10 THEN <<Dg(n)>> ELSE Unpadded(n \div 10) \o <<Dg(n % 10)>>
+\* at least four digits ("%04i"): years above 9999 take the digits they need
+Pad4(n) == IF n > 9999 THEN Unpadded(n) ELSE <<Dg(n \div 1000), Dg((n \div 100) % 10), Dg((n \div 10) % 10), Dg(n % 10)>>
 cT == 84  cZ == 90  cDash == 45  cColon == 58  cDot == 46  cPlus == 43  cSp == 32  cComma == 44
 DayNames == << <<83,117,110>>, <<77,111,110>>, <<84,117,101>>, <<87,101,100>>, <<84,104,117>>, <<70,114,105>>, <<83,97,116>> >>
 MonthNames == << <<74,97,110>>, <<70,101,98>>, <<77,97,114>>, <<65,112,114>>, <<77,97,121>>, <<74,117,110>>,
@@ -224,8 +228,6 @@ PatPastEnd(t, f, pt, pf) ==
     ELSE FALSE
 PatWildcardPastEnd(t, f) == PatPastEnd(t, f, 1, 1)
 \* a text for format f showing the fields fld (<<y, m, d, h, mi, s>>): numbers zero-padded or not, '?' shown as filler
-RECURSIVE Unpadded(_)
-Unpadded(n) == IF n < 10 THEN <<Dg(n)>> ELSE Unpadded(n \div 10) \o <<Dg(n % 10)>>
 RECURSIVE PatTextFrom(_, _, _, _, _)
 PatTextFrom(f, pf, fld, padded, filler) ==
     IF pf > Len(f) THEN <<>>
